@@ -1674,6 +1674,7 @@ class DesignSpace:
         self._variables[name].lower_bound = lower_bound
         self._add_norm_policy(name)
         self.__norm_data_is_computed = False
+        self.__clear_dependent_data()
 
     def set_upper_bound(
         self,
@@ -1694,6 +1695,7 @@ class DesignSpace:
         self._variables[name].upper_bound = upper_bound
         self._add_norm_policy(name)
         self.__norm_data_is_computed = False
+        self.__clear_dependent_data()
 
     def convert_array_to_dict(
         self,
@@ -2374,3 +2376,4 @@ class DesignSpace:
                     self._add_norm_policy(name)
 
             self.__norm_data_is_computed = False
+            self.__clear_dependent_data()
